@@ -28,6 +28,21 @@
 (*       maxSeen (the driver compares the real smoothed value with Cap);   *)
 (*   P3  flying = admitted - completed: back to 0 once every admitted      *)
 (*       request has reported Pass or Fail.                                *)
+(*   P4  the "smoothed number of in-flight requests" is a property of the  *)
+(*       OBSERVED in-flight history, not of a variable of the code: it is  *)
+(*       updated by every completion (Pass or Fail alike) towards the      *)
+(*       in-flight count that completion left - strictly towards it when   *)
+(*       they differ, by any positive amount, never away (the driver       *)
+(*       checks this at each completion of the real shedder); a smoothing  *)
+(*       at least as fast as an ideal slow moving average (factor 0.98,    *)
+(*       counts up to 380) is within 1 of any level c after CalmK = 300    *)
+(*       consecutive completions that all left at most c in flight.  Hence *)
+(*       SmLevel + 1 bounds the smoothed value at any time, and a request  *)
+(*       may not be rejected while every one of the last CalmK completions *)
+(*       (all of them, if there were fewer) left no more than the capacity *)
+(*       in flight (Calm).  `highs` keeps what is needed of the history:   *)
+(*       the suffix maxima of the in-flight counts left by the last CalmK  *)
+(*       completions, most recent first, each with its age in completions. *)
 (* Admission is always allowed; a rejection is allowed only when MayDrop.  *)
 (* The choice is the implementation's: Allow takes the decision as a       *)
 (* parameter and requires  drop => MayDrop.                                *)
@@ -38,7 +53,8 @@ CONSTANTS Size,      \* buckets per window
           Q,         \* ticks per bucket
           TickUs,    \* microseconds per tick
           Advances,  \* time advances offered (ticks)
-          MaxFly     \* bound on outstanding requests (model checking)
+          MaxFly,    \* bound on outstanding requests (model checking)
+          CalmK      \* completions after which the smoothed count has followed the in-flight level
 
 VARIABLES now,       \* ticks
           passBk,    \* [0..Size-1 -> Nat]   passes per bucket, by age (0 = current)
@@ -46,10 +62,11 @@ VARIABLES now,       \* ticks
           starts,    \* sequence of the start instants of the outstanding requests (oldest first)
           over,      \* [seen, at]: last instant at which an Allow observed CPU overload
           maxSeen,   \* largest in-flight count seen by a completion (after its decrement)
+          highs,     \* <<[v, age]>>: suffix maxima of the counts left by the last CalmK completions
           out
 
-vars == <<now, passBk, rtBk, starts, over, maxSeen, out>>
-core == <<now, passBk, rtBk, starts, over, maxSeen>>
+vars == <<now, passBk, rtBk, starts, over, maxSeen, highs, out>>
+core == <<now, passBk, rtBk, starts, over, maxSeen, highs>>
 
 Ages == 0..(Size - 1)
 Visible == 1..(Size - 1)                 \* the shedder's windows ignore the current bucket
@@ -80,12 +97,29 @@ Cap(pb, rb) ==
   LET m == MaxPass(pb) * W IN
   Max2(1, SetMin({m} \cup {BucketCap(m, rb[j]) : j \in {a \in Visible : rb[a].count > 0}}))
 
+\* ---- history of the in-flight counts left by completions
+\* entries of h that survive n further completions the highest of which left f in flight
+Keep(h, f, n) ==
+  SelectSeq([i \in 1..Len(h) |-> [v |-> h[i].v, age |-> h[i].age + n]], LAMBDA e : e.v > f /\ e.age < CalmK)
+\* one completion that left f in flight
+PushOne(h, f) == <<[v |-> f, age |-> 0]>> \o Keep(h, f, 1)
+\* n completions in a row that left L-1, L-2, .., L-n in flight
+PushRun(h, L, n) ==
+  SelectSeq([i \in 1..n |-> [v |-> L - n + i - 1, age |-> i - 1]], LAMBDA e : e.age < CalmK) \o Keep(h, L - 1, n)
+\* n completions in a row that each left L in flight
+PushSame(h, L, n) == <<[v |-> L, age |-> 0]>> \o Keep(h, L, n)
+\* every one of the last CalmK completions (all, if fewer) left at most c in flight
+Calm(h, c) == \A i \in 1..Len(h) : h[i].v <= c
+\* the highest count left by one of the last CalmK completions
+SmLevel(h) == IF h = <<>> THEN 0 ELSE h[Len(h)].v
+
 Recently(o, t) == o.seen /\ t - o.at < CoolTicks
 Hot(cpuOver, o, t) == cpuOver \/ Recently(o, t)
 MayDrop(cpuOver) ==
   /\ Hot(cpuOver, over, now)
   /\ Flying > Cap(passBk, rtBk)
   /\ maxSeen > Cap(passBk, rtBk)
+  /\ ~Calm(highs, Cap(passBk, rtBk))
 
 RemoveAt(s, i) == [j \in 1..(Len(s) - 1) |-> IF j < i THEN s[j] ELSE s[j + 1]]
 
@@ -101,6 +135,7 @@ Init ==
   /\ starts = <<>>
   /\ over = [seen |-> FALSE, at |-> 0]
   /\ maxSeen = 0
+  /\ highs = <<>>
   /\ out = [op |-> "init"]
 
 Advance(d) ==
@@ -108,7 +143,7 @@ Advance(d) ==
   /\ passBk' = ShiftP(passBk, Cur(now + d) - Cur(now))
   /\ rtBk' = ShiftR(rtBk, Cur(now + d) - Cur(now))
   /\ out' = [op |-> "advance", d |-> d]
-  /\ UNCHANGED <<starts, over, maxSeen>>
+  /\ UNCHANGED <<starts, over, maxSeen, highs>>
 
 Allow(cpuOver, drop) ==
   /\ drop => MayDrop(cpuOver)
@@ -116,20 +151,22 @@ Allow(cpuOver, drop) ==
   /\ over' = IF cpuOver THEN [seen |-> TRUE, at |-> now] ELSE over
   /\ starts' = IF drop THEN starts ELSE Append(starts, now)
   /\ out' = [op |-> "allow", over |-> cpuOver, drop |-> drop, mayDrop |-> MayDrop(cpuOver),
-             hot |-> Hot(cpuOver, over, now), cap |-> Cap(passBk, rtBk), flying |-> Len(starts')]
-  /\ UNCHANGED <<now, passBk, rtBk, maxSeen>>
+             hot |-> Hot(cpuOver, over, now), cap |-> Cap(passBk, rtBk), flying |-> Len(starts'),
+             calm |-> Calm(highs, Cap(passBk, rtBk)), smBound |-> SmLevel(highs) + 1]
+  /\ UNCHANGED <<now, passBk, rtBk, maxSeen, highs>>
 
 \* the i-th outstanding request reports Pass (latency recorded) or Fail
 Complete(i, pass) ==
   /\ i \in 1..Len(starts)
   /\ starts' = RemoveAt(starts, i)
   /\ maxSeen' = Max2(maxSeen, Len(starts) - 1)
+  /\ highs' = PushOne(highs, Len(starts) - 1)
   /\ IF pass
        THEN /\ passBk' = [passBk EXCEPT ![0] = @ + 1]
             /\ rtBk' = [rtBk EXCEPT ![0] = [sum |-> @.sum + (now - starts[i]), count |-> @.count + 1]]
        ELSE UNCHANGED <<passBk, rtBk>>
   /\ out' = [op |-> IF pass THEN "pass" ELSE "fail", i |-> i, rt |-> now - starts[i],
-             flying |-> Len(starts) - 1, maxSeen |-> maxSeen']
+             flying |-> Len(starts) - 1, maxSeen |-> maxSeen', smBound |-> SmLevel(highs') + 1]
   /\ UNCHANGED <<now, over>>
 
 Next ==
@@ -152,12 +189,20 @@ P2 == [][(out'.op = "allow" /\ out'.drop) =>
             (Len(starts) > out'.cap /\ maxSeen > out'.cap /\ out'.cap >= 1)]_vars
 
 \* a rejected request changes nothing but the overload observation
-P2b == [][(out'.op = "allow" /\ out'.drop) => <<passBk, rtBk, starts, maxSeen>>' = <<passBk, rtBk, starts, maxSeen>>]_vars
+P2b == [][(out'.op = "allow" /\ out'.drop) => <<passBk, rtBk, starts, maxSeen, highs>>' = <<passBk, rtBk, starts, maxSeen, highs>>]_vars
 
 \* P3: in-flight count = admitted - completed (the outstanding promises), never negative
 P3 == [][/\ (out'.op = "allow" => Len(starts') = Len(starts) + (IF out'.drop THEN 0 ELSE 1))
          /\ (out'.op \in {"pass", "fail"} => Len(starts') = Len(starts) - 1 /\ out'.flying = Len(starts'))
          /\ (out'.op = "advance" => starts' = starts)]_vars
+
+\* P4: no rejection while every one of the last CalmK completions left at most the capacity in
+\* flight; Pass and Fail feed the history alike
+P4 == [][/\ ((out'.op = "allow" /\ out'.drop) => \E i \in 1..Len(highs) : highs[i].v > out'.cap)
+         /\ (out'.op \in {"pass", "fail"} => highs'[1] = [v |-> Len(starts'), age |-> 0])]_vars
+HighsShape ==
+  /\ \A i \in 1..Len(highs) : highs[i].age < CalmK /\ highs[i].v <= maxSeen
+  /\ \A i \in 1..(Len(highs) - 1) : highs[i].v < highs[i + 1].v /\ highs[i].age < highs[i + 1].age
 
 \* only a Pass feeds the windows; what ages out of the window no longer counts
 WindowsFedByPass ==
